@@ -58,3 +58,548 @@ theorem release_rem (hb : B64RoundTrip) (c : Ctx) (R V : List Byte) (m bufsize :
         cases c; simp_all
 
 end VncModel.Ws
+
+namespace VncModel.Ws
+
+theorem Inv_start (co : Byte) (fs : List Frame) (hv : ValidSeq co fs) (opc fin : Byte) (pl : Nat) :
+    Inv (ctxAtHeader [] opc fin pl co) (wireOf fs) (expected co fs) := by
+  cases fs with
+  | nil => exact Inv.done opc fin pl co
+  | cons f fs =>
+    have h := Inv.header f fs co co 0 opc fin pl hv (by simp [Frame.header]) (Or.inl rfl)
+    simpa [wireOf, Frame.wire, List.append_assoc] using h
+
+def wpOf (f : Frame) (co : Byte) (a : Nat) : Nat :=
+  if isDataOp (f.effOp co) then f.header.length else f.header.length + a
+
+/-- general frame-phase context -/
+def ctxF (f : Frame) (co : Byte) (st : St) (np : Nat) (carry : List Byte) (wp rp : Option Nat)
+    (rl : Int) (rd : List Byte) : Ctx :=
+  { st := st, hdr := f.header, opcode := f.effOp co, fin := f.fin, payloadLen := f.payload.length,
+    mask := f.mask, headerLen := f.header.length, nReadPayload := np, carry := carry,
+    writePos := wp, readPos := rp, readlen := rl, rd := rd, contOp := f.nextCo co }
+
+theorem ctxInFrame_eq (f : Frame) (co : Byte) (a : Nat) (cu rd : List Byte) (rp : Option Nat) (st : St) :
+    ctxInFrame f co a cu rd rp st =
+      ctxF f co st (a + cu.length) (xorFrom f.mask a cu) (some (wpOf f co a)) rp rd.length rd := rfl
+
+theorem advance_ctxF (f : Frame) (co : Byte) (st : St) (np n : Nat) (carry : List Byte)
+    (wp rp : Option Nat) (rl : Int) (rd : List Byte) (h1 : np + n ≤ f.payload.length)
+    (h2 : f.payload.length < 2 ^ 64) :
+    advance (ctxF f co st np carry wp rp rl rd) n =
+      ctxF f co (if np + n = f.payload.length then .frameComplete else st) (np + n) carry wp rp rl rd := by
+  have e1 : (np + n) % 2 ^ 64 = np + n := Nat.mod_eq_of_lt (by omega)
+  have e2 : ((f.payload.length + 2 ^ 64 - (np + n)) % 2 ^ 64 = 0) ↔ np + n = f.payload.length := by
+    constructor
+    · intro h
+      have : f.payload.length + 2 ^ 64 - (np + n) = 2 ^ 64 + (f.payload.length - (np + n)) := by omega
+      rw [this, Nat.add_mod_left, Nat.mod_eq_of_lt (by omega)] at h
+      omega
+    · intro h; rw [h]; simp
+  simp only [advance, ctxF, e1, e2]
+
+theorem ctxF_remaining (f : Frame) (co : Byte) (st : St) (np : Nat) (carry : List Byte)
+    (wp rp : Option Nat) (rl : Int) (rd : List Byte) (h1 : np ≤ f.payload.length)
+    (h2 : f.payload.length < 2 ^ 64) :
+    (ctxF f co st np carry wp rp rl rd).remaining = f.payload.length - np := by
+  simp only [Ctx.remaining, ctxF]
+  have : f.payload.length + 2 ^ 64 - np = 2 ^ 64 + (f.payload.length - np) := by omega
+  rw [this, Nat.add_mod_left, Nat.mod_eq_of_lt (by omega)]
+
+end VncModel.Ws
+namespace VncModel.Ws
+
+theorem returnData_nil (c : Ctx) (len : Nat) (h : c.readlen = 0) : returnData c len = (c, c.st, .again) := by
+  simp [returnData, h]
+
+theorem returnData_ctxF (f : Frame) (co : Byte) (st : St) (np : Nat) (carry : List Byte)
+    (wp : Option Nat) (rp : Nat) (rd : List Byte) (len : Nat) (hrd : rd ≠ [])
+    (h1 : np ≤ f.payload.length) (h2 : f.payload.length < 2 ^ 64) :
+    returnData (ctxF f co st np carry wp (some rp) rd.length rd) len =
+      if len < rd.length then
+        (ctxF f co st np carry wp (some (rp + len)) (rd.drop len).length (rd.drop len), .dataAvailable,
+          .data (rd.take len))
+      else
+        (ctxF f co st np carry wp none 0 [],
+          if np = f.payload.length then .frameComplete else .dataNeeded, .data rd) := by
+  have hpos : (0 : Int) < rd.length := by
+    have := List.length_pos_iff.mpr hrd; omega
+  have hrem := ctxF_remaining f co st np carry wp (some rp) rd.length rd h1 h2
+  unfold returnData
+  rw [hrem]
+  simp only [ctxF] at *
+  simp only [hpos, if_true]
+  by_cases hl : len < rd.length
+  · have : (rd.length : Int) > len := by omega
+    simp only [this, hl, if_true, List.length_drop]
+    congr 2
+    omega
+  · have : ¬ (rd.length : Int) > len := by omega
+    simp only [this, hl, if_false]
+    have e : (f.payload.length - np = 0) ↔ np = f.payload.length := by omega
+    simp only [e]
+
+end VncModel.Ws
+namespace VncModel.Ws
+
+theorem effOp_isControl (f : Frame) (co : Byte) (hok : f.ok co) :
+    ((f.effOp co) &&& 0x08 != 0) = f.isControl := by
+  obtain ⟨_, _, h3⟩ := hok
+  by_cases hc : f.isControl = true
+  · simp only [Frame.effOp, hc, if_true]; exact hc
+  · have hc' : f.isControl = false := by simpa using hc
+    obtain ⟨_, h4⟩ := h3 hc'
+    rw [hc']
+    rcases h4 with h4 | ⟨h4, _⟩ <;> rw [h4] <;> decide
+
+theorem effOp_not_close (f : Frame) (co : Byte) (hok : f.ok co) : f.effOp co ≠ opClose := by
+  obtain ⟨_, h2, h3⟩ := hok
+  by_cases hc : f.isControl = true
+  · simp only [Frame.effOp, hc, if_true]; exact (h2 hc).2.1
+  · have hc' : f.isControl = false := by simpa using hc
+    obtain ⟨_, h4⟩ := h3 hc'
+    rcases h4 with h4 | ⟨h4, _⟩ <;> rw [h4] <;> decide
+
+theorem ctxF_set_st (f : Frame) (co : Byte) (st st' : St) (np : Nat) (carry : List Byte)
+    (wp rp : Option Nat) (rl : Int) (rd : List Byte) :
+    { ctxF f co st np carry wp rp rl rd with st := st' } = ctxF f co st' np carry wp rp rl rd := rfl
+
+theorem ctxF_set_rp (f : Frame) (co : Byte) (st : St) (np : Nat) (carry : List Byte)
+    (wp rp rp' : Option Nat) (rl : Int) (rd : List Byte) :
+    { ctxF f co st np carry wp rp rl rd with readPos := rp' } = ctxF f co st np carry wp rp' rl rd := rfl
+
+theorem spor_ctxF_complete (f : Frame) (co : Byte) (hok : f.ok co) (np : Nat) (carry : List Byte)
+    (wp rp : Option Nat) (rl : Int) (rd : List Byte) :
+    spor (ctxF f co .frameComplete np carry wp rp rl rd) =
+      ctxAtHeader [] opInvalid f.fin 0 (f.afterCo co) := by
+  have hic := effOp_isControl f co hok
+  simp only [spor, ctxF, Ctx.isControl, hic, if_true, cleanupComplete, cleanupBasics, ctxAtHeader,
+    Frame.afterCo]
+  split <;> rfl
+
+theorem spor_ctxF_other (f : Frame) (co : Byte) (st : St) (h1 : st ≠ .frameComplete) (h2 : st ≠ .err)
+    (np : Nat) (carry : List Byte) (wp rp : Option Nat) (rl : Int) (rd : List Byte) :
+    spor (ctxF f co st np carry wp rp rl rd) = ctxF f co st np carry wp rp rl rd := by
+  simp [spor, ctxF, h1, h2]
+
+end VncModel.Ws
+namespace VncModel.Ws
+
+theorem unmaskChunk_aligned (complete : Bool) (m : Mask) (a : Nat) (ha : a % 4 = 0) (X : List Byte) :
+    unmaskChunk complete m (xorFrom m a X) =
+      (X.take (if complete then X.length else 4 * (X.length / 4)),
+       xorFrom m (a + (if complete then X.length else 4 * (X.length / 4)))
+         (X.drop (if complete then X.length else 4 * (X.length / 4)))) := by
+  cases complete with
+  | true => simp [unmaskChunk, xorMask_xorFrom_aligned m a ha, xorFrom_nil]
+  | false =>
+    simp only [unmaskChunk, xorFrom_length, xorFrom_take, xorFrom_drop,
+      xorMask_xorFrom_aligned m a ha]
+    simp
+
+theorem release_ctxF (hb : B64RoundTrip) (f : Frame) (co : Byte) (st : St) (np : Nat)
+    (carry : List Byte) (wp rp : Option Nat) (R V : List Byte) (m bufsize : Nat)
+    (hrem : Rem (f.effOp co) R V) (hm4 : f.effOp co = opText → m % 4 = 0) (hm : m ≤ R.length)
+    (hbs : m ≤ bufsize + 3) (hbig : 10 ≤ bufsize) :
+    ∃ out V', V = out ++ V' ∧ Rem (f.effOp co) (R.drop m) V' ∧ out.length ≤ m ∧
+      release (ctxF f co st np carry wp rp 0 []) (R.take m) bufsize =
+        ctxF f co st np carry (if isDataOp (f.effOp co) then some f.header.length else wp) rp
+          out.length out := by
+  obtain ⟨out, V', h1, h2, h3, h4⟩ :=
+    release_rem hb (ctxF f co st np carry wp rp 0 []) R V m bufsize hrem hm4 hm hbs hbig rfl rfl
+  exact ⟨out, V', h1, h2, h3, h4⟩
+
+end VncModel.Ws
+namespace VncModel.Ws
+
+theorem finishChunk_ctxF (f : Frame) (co : Byte) (hok : f.ok co) (st : St) (np : Nat)
+    (carry : List Byte) (wp rp : Option Nat) (e : Env) (len wpEnd bufsize a : Nat) (ha : a % 4 = 0)
+    (X : List Byte) (m : Nat)
+    (hm : m = if (st == .frameComplete) then X.length else 4 * (X.length / 4)) :
+    finishChunk (ctxF f co st np carry wp rp 0 []) e len wpEnd bufsize (xorFrom f.mask a X) =
+      ⟨(returnData { release (ctxF f co st np (xorFrom f.mask (a + m) (X.drop m))
+            (some (wpEnd - (X.drop m).length)) rp 0 []) (X.take m) bufsize with
+            readPos := some (wpEnd - X.length) } len).1, e,
+       (returnData { release (ctxF f co st np (xorFrom f.mask (a + m) (X.drop m))
+            (some (wpEnd - (X.drop m).length)) rp 0 []) (X.take m) bufsize with
+            readPos := some (wpEnd - X.length) } len).2.1,
+       (returnData { release (ctxF f co st np (xorFrom f.mask (a + m) (X.drop m))
+            (some (wpEnd - (X.drop m).length)) rp 0 []) (X.take m) bufsize with
+            readPos := some (wpEnd - X.length) } len).2.2⟩ := by
+  have hnc := effOp_not_close f co hok
+  subst hm
+  unfold finishChunk
+  have hu := unmaskChunk_aligned (st == .frameComplete) f.mask a ha X
+  simp only [ctxF] at hu ⊢
+  rw [hu]
+  simp only [hnc, if_false, xorFrom_length]
+
+theorem decodeChunk_frame (hb : B64RoundTrip) (f : Frame) (fs : List Frame) (co : Byte) (a : Nat)
+    (cu rest Vf : List Byte) (rp : Option Nat) (e : Env) (len t : Nat)
+    (hv : ValidSeq co (f :: fs)) (ha : a % 4 = 0) (hcu : cu.length ≤ 3)
+    (hP : f.payload.length = a + cu.length + rest.length) (hrem : Rem (f.effOp co) (cu ++ rest) Vf)
+    (ht : t ≤ rest.length) (hlen : 0 < len)
+    (hwp : wpOf f co a + cu.length + 1 ≤ BUF) (htb : t ≤ BUF - (wpOf f co a + cu.length) - 1)
+    (hbig : 10 ≤ BUF - (wpOf f co a + cu.length) - 1) :
+    ∃ d, decodeChunk (ctxInFrame f co a cu [] rp .dataNeeded) e len [] (wpOf f co a + cu.length)
+              (BUF - (wpOf f co a + cu.length) - 1) (xorFrom f.mask (a + cu.length) (rest.take t)) = d ∧
+    d.e = e ∧ ∃ out V', d.res = (if out = [] then Res.again else Res.data out) ∧ out.length ≤ len ∧
+      Vf ++ expected (f.afterCo co) fs = out ++ V' ∧
+      Inv (spor { d.c with st := d.st })
+        (xorFrom f.mask (a + cu.length + t) (rest.drop t) ++ wireOf fs) V' := by
+  obtain ⟨hok, hvs⟩ := hv
+  have hPlt : f.payload.length < 2 ^ 64 := hok.1
+  -- the bytes in front of writePos
+  let X := cu ++ rest.take t
+  have hXlen : X.length = cu.length + t := by simp [X]; omega
+  have hdata : xorFrom f.mask a cu ++ xorFrom f.mask (a + cu.length) (rest.take t) = xorFrom f.mask a X := by
+    simp [X, xorFrom_append]
+  let complete : Bool := decide (t = rest.length)
+  let m := if complete then X.length else 4 * (X.length / 4)
+  have hmX : m ≤ X.length := by
+    simp only [m]; split <;> omega
+  -- the remaining unmasked payload and the part released now
+  have hR : cu ++ rest = X ++ rest.drop t := by
+    simp [X, List.append_assoc]
+  have hRtake : (cu ++ rest).take m = X.take m := by
+    rw [hR, List.take_append_of_le_length hmX]
+  have hRdrop : (cu ++ rest).drop m = X.drop m ++ rest.drop t := by
+    rw [hR, List.drop_append_of_le_length hmX]
+  have hm4 : f.effOp co = opText → m % 4 = 0 := by
+    intro htx
+    simp only [m]
+    split
+    · rename_i hc
+      have htl : t = rest.length := by simpa [complete] using hc
+      have : Vf.length = Vf.length := rfl
+      have hne : opText ≠ opBinary := by decide
+      simp only [Rem, htx, hne, if_false, if_true] at hrem
+      have h4 := ntop_length_mod4 Vf
+      rw [← hrem] at h4
+      simp only [List.length_append] at h4
+      rw [hXlen, htl]; exact h4
+    · omega
+  have hmR : m ≤ (cu ++ rest).length := by
+    simp only [List.length_append]; omega
+  obtain ⟨out, Vr, hVf, hRem', houtm, hrel⟩ :=
+    release_ctxF hb f co (if a + cu.length + t = f.payload.length then St.frameComplete else St.dataNeeded)
+      (a + cu.length + t) (xorFrom f.mask (a + m) (X.drop m))
+      (some (wpOf f co a + cu.length + t - (X.drop m).length)) rp (cu ++ rest) Vf m
+      (BUF - (wpOf f co a + cu.length) - 1) hrem hm4 hmR (by omega) hbig
+  refine ⟨_, rfl, ?_⟩
+  have hnp : a + cu.length + t = f.payload.length ↔ t = rest.length := by omega
+  have hbsl : (xorFrom f.mask (a + cu.length) (rest.take t)).length = t := by
+    simp [xorFrom_length]; omega
+  have hstC : ((if a + cu.length + t = f.payload.length then St.frameComplete else St.dataNeeded)
+      == St.frameComplete) = complete := by
+    by_cases h : t = rest.length
+    · simp [complete, h]; omega
+    · have : ¬ (a + cu.length + t = f.payload.length) := fun h' => h (hnp.mp h')
+      simp [complete, h, this]
+  have hdc : decodeChunk (ctxInFrame f co a cu [] rp .dataNeeded) e len [] (wpOf f co a + cu.length)
+      (BUF - (wpOf f co a + cu.length) - 1) (xorFrom f.mask (a + cu.length) (rest.take t)) =
+      finishChunk (ctxF f co (if a + cu.length + t = f.payload.length then St.frameComplete else St.dataNeeded)
+        (a + cu.length + t) (xorFrom f.mask a cu) (some (wpOf f co a)) rp 0 []) e len
+        (wpOf f co a + cu.length + t) (BUF - (wpOf f co a + cu.length) - 1) (xorFrom f.mask a X) := by
+    have hc0 : ctxInFrame f co a cu [] rp .dataNeeded =
+        ctxF f co .dataNeeded (a + cu.length) (xorFrom f.mask a cu) (some (wpOf f co a)) rp 0 [] := rfl
+    rw [hc0]
+    unfold decodeChunk
+    have hadv := advance_ctxF f co .dataNeeded (a + cu.length) t (xorFrom f.mask a cu)
+      (some (wpOf f co a)) rp 0 [] (by omega) hPlt
+    have hcar : (ctxF f co .dataNeeded (a + cu.length) (xorFrom f.mask a cu) (some (wpOf f co a)) rp
+        0 []).carry = xorFrom f.mask a cu := rfl
+    simp only [List.nil_append]
+    rw [hcar, hdata, hbsl, hadv]
+    have : ¬ (wpOf f co a + cu.length + t < (xorFrom f.mask a X).length) := by
+      rw [xorFrom_length, hXlen]; omega
+    simp only [this, if_false]
+  rw [hdc, finishChunk_ctxF f co hok _ _ _ _ _ e len _ _ a ha X m (by rw [hstC])]
+  simp only
+  rw [← hRtake, hrel, ctxF_set_rp]
+  refine ⟨trivial, ?_⟩
+  -- the abstract state after this chunk: a' = a + m, cu' = X.drop m, rest' = rest.drop t
+  have hcu' : (X.drop m).length ≤ 3 := by
+    simp only [List.length_drop, m]; split <;> omega
+  have hcompl : t = rest.length → X.drop m = [] := by
+    intro h; simp [m, complete, h]
+  have hInvFrame : ∀ (rdN : List Byte) (rpN : Option Nat) (stN : St),
+      ((rdN = [] ∧ stN = .dataNeeded ∧ rest.drop t ≠ []) ∨ (rdN ≠ [] ∧ stN = .dataAvailable ∧ rpN.isSome)) →
+      Inv (ctxF f co stN (a + cu.length + t) (xorFrom f.mask (a + m) (X.drop m))
+            (if isDataOp (f.effOp co) = true then some f.header.length
+             else some (wpOf f co a + cu.length + t - (X.drop m).length)) rpN rdN.length rdN)
+          (xorFrom f.mask (a + cu.length + t) (rest.drop t) ++ wireOf fs)
+          (rdN ++ (Vr ++ expected (f.afterCo co) fs)) := by
+    intro rdN rpN stN hcase
+    have hctx : ctxF f co stN (a + cu.length + t) (xorFrom f.mask (a + m) (X.drop m))
+            (if isDataOp (f.effOp co) = true then some f.header.length
+             else some (wpOf f co a + cu.length + t - (X.drop m).length)) rpN rdN.length rdN =
+        ctxInFrame f co (a + m) (X.drop m) rdN rpN stN := by
+      simp only [ctxF, ctxInFrame, Ctx.mk.injEq, true_and, and_true, List.length_drop, wpOf]
+      refine ⟨by omega, ?_⟩
+      split
+      · rfl
+      · congr 1; omega
+    rw [hctx]
+    have hpend : xorFrom f.mask (a + cu.length + t) (rest.drop t) =
+        xorFrom f.mask (a + m + (X.drop m).length) (rest.drop t) := by
+      congr 1; simp only [List.length_drop]; omega
+    rw [hpend]
+    refine Inv.frame f fs co (a + m) (X.drop m) (rest.drop t) rdN Vr rpN stN ⟨hok, hvs⟩ ?_ hcu' ?_ ?_ ?_ hcase
+    · intro hne
+      have : ¬ t = rest.length := by
+        intro h; apply hne; simp [h]
+      simp only [m, complete, this, decide_false]
+      simp; omega
+    · simp only [List.length_drop]; omega
+    · intro h
+      apply hcompl
+      have := congrArg List.length h
+      simp only [List.length_drop, List.length_nil] at this
+      omega
+    · rw [← hRdrop]; exact hRem'
+  -- when the frame is complete nothing of it is left to deliver after `out`
+  have hVr : t = rest.length → Vr = [] := by
+    intro h
+    apply Rem_nil (f.effOp co)
+    have h1 : X.drop m = [] := hcompl h
+    have h2 : rest.drop t = [] := by simp [h]
+    rw [hRdrop, h1, h2] at hRem'
+    exact hRem'
+  have hnpP : a + cu.length + t ≤ f.payload.length := by omega
+  by_cases hout : out = []
+  · -- nothing to hand out: EAGAIN, state kept (or frame finished)
+    refine ⟨[], Vr ++ expected (f.afterCo co) fs, ?_, by simp, by simp [hVf, hout], ?_⟩
+    · rw [returnData_nil _ _ (by simp [ctxF, hout])]; simp
+    · rw [returnData_nil _ _ (by simp [ctxF, hout])]
+      simp only [ctxF_set_st]
+      by_cases hc : t = rest.length
+      · have : a + cu.length + t = f.payload.length := hnp.mpr hc
+        have hst : (ctxF f co (if a + cu.length + t = f.payload.length then St.frameComplete else St.dataNeeded)
+            (a + cu.length + t) (xorFrom f.mask (a + m) (X.drop m))
+            (if isDataOp (f.effOp co) = true then some f.header.length
+             else some (wpOf f co a + cu.length + t - (X.drop m).length))
+            (some (wpOf f co a + cu.length + t - X.length)) (out.length) out).st = .frameComplete := by
+          simp [ctxF, this]
+        rw [hst, spor_ctxF_complete f co hok]
+        have h2 : rest.drop t = [] := by simp [hc]
+        rw [hVr hc, h2, xorFrom_nil]
+        simpa using Inv_start (f.afterCo co) fs hvs opInvalid f.fin 0
+      · have hne : ¬ (a + cu.length + t = f.payload.length) := fun h' => hc (hnp.mp h')
+        have hst : (ctxF f co (if a + cu.length + t = f.payload.length then St.frameComplete else St.dataNeeded)
+            (a + cu.length + t) (xorFrom f.mask (a + m) (X.drop m))
+            (if isDataOp (f.effOp co) = true then some f.header.length
+             else some (wpOf f co a + cu.length + t - (X.drop m).length))
+            (some (wpOf f co a + cu.length + t - X.length)) (out.length) out).st = .dataNeeded := by
+          simp [ctxF, hne]
+        rw [hst, spor_ctxF_other _ _ _ (by decide) (by decide)]
+        have hrne : rest.drop t ≠ [] := by
+          intro h
+          have := congrArg List.length h
+          simp only [List.length_drop, List.length_nil] at this
+          omega
+        have := hInvFrame [] (some (wpOf f co a + cu.length + t - X.length)) .dataNeeded
+          (Or.inl ⟨rfl, rfl, hrne⟩)
+        simpa [hout] using this
+  · rw [returnData_ctxF f co _ _ _ _ _ out len hout hnpP hPlt]
+    by_cases hl : len < out.length
+    · simp only [hl, if_true, ctxF_set_st]
+      have htne : out.take len ≠ [] := by
+        intro h
+        have := congrArg List.length h
+        simp only [List.length_take, List.length_nil] at this
+        omega
+      have hdne : out.drop len ≠ [] := by
+        intro h
+        have := congrArg List.length h
+        simp only [List.length_drop, List.length_nil] at this
+        omega
+      refine ⟨out.take len, out.drop len ++ (Vr ++ expected (f.afterCo co) fs), by simp [htne], ?_, ?_, ?_⟩
+      · simp only [List.length_take]; omega
+      · rw [hVf, ← List.append_assoc, ← List.append_assoc, List.take_append_drop, List.append_assoc]
+      · rw [spor_ctxF_other _ _ _ (by decide) (by decide)]
+        exact hInvFrame (out.drop len) (some (wpOf f co a + cu.length + t - X.length + len)) .dataAvailable
+          (Or.inr ⟨hdne, rfl, rfl⟩)
+    · simp only [hl, if_false, ctxF_set_st]
+      refine ⟨out, Vr ++ expected (f.afterCo co) fs, by simp [hout], by omega, by rw [hVf, List.append_assoc], ?_⟩
+      by_cases hc : t = rest.length
+      · have : a + cu.length + t = f.payload.length := hnp.mpr hc
+        simp only [this, if_true]
+        rw [spor_ctxF_complete f co hok]
+        have h2 : rest.drop t = [] := by simp [hc]
+        rw [hVr hc, h2, xorFrom_nil]
+        simpa using Inv_start (f.afterCo co) fs hvs opInvalid f.fin 0
+      · have hne : ¬ (a + cu.length + t = f.payload.length) := fun h' => hc (hnp.mp h')
+        simp only [hne, if_false]
+        rw [spor_ctxF_other _ _ _ (by decide) (by decide)]
+        have hrne : rest.drop t ≠ [] := by
+          intro h
+          have := congrArg List.length h
+          simp only [List.length_drop, List.length_nil] at this
+          omega
+        have := hInvFrame [] none .dataNeeded (Or.inl ⟨rfl, rfl, hrne⟩)
+        simpa using this
+
+end VncModel.Ws
+
+namespace VncModel.Ws
+
+theorem lenField_length (n : Nat) :
+    (lenField n).length = if n < 126 then 1 else if n < 65536 then 3 else 9 := by
+  unfold lenField
+  split
+  · rfl
+  · split <;> simp [beEnc_length]
+
+theorem header_length (f : Frame) :
+    f.header.length = if f.payload.length < 126 then 6 else if f.payload.length < 65536 then 8 else 14 := by
+  simp only [Frame.header, List.length_cons, List.length_append, lenField_length, Mask.toList]
+  split
+  · rfl
+  · split <;> rfl
+
+theorem header_length_le (f : Frame) : f.header.length ≤ 14 ∧ 6 ≤ f.header.length := by
+  rw [header_length]; split
+  · omega
+  · split <;> omega
+
+theorem isDataOp_of_ok (f : Frame) (co : Byte) (hok : f.ok co) :
+    isDataOp (f.effOp co) = !f.isControl := by
+  obtain ⟨_, _, h3⟩ := hok
+  by_cases hc : f.isControl = true
+  · rw [hc]
+    have : f.effOp co = f.opcode := by simp [Frame.effOp, hc]
+    rw [this]
+    simp only [Frame.isControl] at hc
+    simp only [isDataOp, Bool.not_true, Bool.or_eq_false_iff, beq_eq_false_iff_ne]
+    constructor
+    · intro h; rw [h] at hc; revert hc; decide
+    · intro h; rw [h] at hc; revert hc; decide
+  · have hc' : f.isControl = false := by simpa using hc
+    obtain ⟨_, h4⟩ := h3 hc'
+    rw [hc']
+    rcases h4 with h4 | ⟨h4, _⟩ <;> rw [h4] <;> decide
+
+theorem wp_bound (f : Frame) (co : Byte) (hok : f.ok co) (a k : Nat) (h : a + k ≤ f.payload.length)
+    (hk : k ≤ 3) : wpOf f co a + k + 1900 ≤ BUF := by
+  have hl := (header_length_le f).1
+  have hd := isDataOp_of_ok f co hok
+  unfold wpOf
+  by_cases hc : f.isControl = true
+  · have := (hok.2.1 hc).2.2
+    simp only [hd, hc, Bool.not_true]
+    simp [BUF, Gen.C09.decodeBufSize]; omega
+  · have hc' : f.isControl = false := by simpa using hc
+    simp only [hd, hc', Bool.not_false, if_true]
+    simp [BUF, Gen.C09.decodeBufSize]; omega
+
+theorem readAndDecode_some (c : Ctx) (e : Env) (len : Nat) (inbuf : List Byte) (wp0 : Nat)
+    (h : c.writePos = some wp0) (hb : wp0 + c.carry.length + 1 ≤ BUF) :
+    readAndDecode c e len inbuf =
+      if (if c.remaining > BUF - (wp0 + c.carry.length) - 1 then BUF - (wp0 + c.carry.length) - 1
+          else c.remaining) > 0 then
+        match e.read (wp0 + c.carry.length)
+            ((if c.remaining > BUF - (wp0 + c.carry.length) - 1 then BUF - (wp0 + c.carry.length) - 1
+              else c.remaining : Nat)) with
+        | (.bad, e) => ⟨c, e, .err, .ub⟩
+        | (.fail, e) => ⟨c, e, .err, .err .eio⟩
+        | (.closed, e) => ⟨c, e, .err, .closed⟩
+        | (.again, e) => ⟨c, e, c.st, .again⟩
+        | (.data bs, e) =>
+          decodeChunk c e len inbuf (wp0 + c.carry.length) (BUF - (wp0 + c.carry.length) - 1) bs
+      else decodeChunk c e len inbuf (wp0 + c.carry.length) (BUF - (wp0 + c.carry.length) - 1) [] := by
+  unfold readAndDecode
+  rw [h]
+  have : ¬ (wp0 + c.carry.length + 1 > BUF) := by omega
+  simp only [this, if_false]
+  rfl
+
+end VncModel.Ws
+namespace VncModel.Ws
+
+theorem readAndDecode_frame (hb : B64RoundTrip) (f : Frame) (fs : List Frame) (co : Byte) (a : Nat)
+    (cu rest Vf : List Byte) (rp : Option Nat) (e : Env) (len : Nat)
+    (hv : ValidSeq co (f :: fs)) (ha : a % 4 = 0) (hcu : cu.length ≤ 3)
+    (hP : f.payload.length = a + cu.length + rest.length) (hce : rest = [] → cu = [])
+    (hrem : Rem (f.effOp co) (cu ++ rest) Vf)
+    (hlen : 0 < len) (hpend : e.pending = xorFrom f.mask (a + cu.length) rest ++ wireOf fs)
+    (hff : e.FaultFree) (hs : e.Safe) :
+    ∃ d, readAndDecode (ctxInFrame f co a cu [] rp .dataNeeded) e len [] = d ∧
+    d.e.FaultFree ∧ d.e.Safe ∧ ∃ out V', d.res = (if out = [] then Res.again else Res.data out) ∧
+      out.length ≤ len ∧ Vf ++ expected (f.afterCo co) fs = out ++ V' ∧
+      Inv (spor { d.c with st := d.st }) d.e.pending V' := by
+  refine ⟨_, rfl, ?_⟩
+  have hok := hv.1
+  have hPlt : f.payload.length < 2 ^ 64 := hok.1
+  have hwpb := wp_bound f co hok a cu.length (by omega) hcu
+  have hcl : (ctxInFrame f co a cu [] rp .dataNeeded).carry.length = cu.length := by
+    simp [ctxInFrame, xorFrom_length]
+  have hremv : (ctxInFrame f co a cu [] rp .dataNeeded).remaining = rest.length := by
+    have := ctxF_remaining f co .dataNeeded (a + cu.length) (xorFrom f.mask a cu)
+      (some (wpOf f co a)) rp 0 [] (by omega) hPlt
+    have hc0 : ctxInFrame f co a cu [] rp .dataNeeded =
+        ctxF f co .dataNeeded (a + cu.length) (xorFrom f.mask a cu) (some (wpOf f co a)) rp 0 [] := rfl
+    rw [hc0, this]; omega
+  have hrd := readAndDecode_some (ctxInFrame f co a cu [] rp .dataNeeded) e len [] (wpOf f co a) rfl
+    (by rw [hcl]; omega)
+  simp only [hcl, hremv] at hrd
+  rw [hrd]
+  clear hrd
+  generalize hN : (if rest.length > BUF - (wpOf f co a + cu.length) - 1
+      then BUF - (wpOf f co a + cu.length) - 1 else rest.length) = N
+  have hNle : N ≤ rest.length ∧ N ≤ BUF - (wpOf f co a + cu.length) - 1 := by
+    rw [← hN]; split <;> omega
+  by_cases hN0 : N > 0
+  · simp only [hN0, if_true]
+    obtain ⟨hff', hs', hcases⟩ := Env.read_cases e (wpOf f co a + cu.length) (N : Int) (by omega)
+      (by omega) hff hs
+    generalize hr : e.read (wpOf f co a + cu.length) (N : Int) = r at hff' hs' hcases
+    obtain ⟨o, e'⟩ := r
+    simp only at hff' hs' hcases
+    rcases hcases with ⟨ho, hp'⟩ | ⟨t, ht0, htN, htl, ho, hp'⟩
+    · -- EAGAIN: state kept
+      subst ho
+      simp only
+      refine ⟨hff', hs', [], Vf ++ expected (f.afterCo co) fs, by simp, by simp, by simp, ?_⟩
+      have hsp : spor { ctxInFrame f co a cu [] rp .dataNeeded with
+          st := (ctxInFrame f co a cu [] rp .dataNeeded).st } = ctxInFrame f co a cu [] rp .dataNeeded := by
+        simp [spor, ctxInFrame]
+      rw [hsp, hp', hpend]
+      have hrne : rest ≠ [] := by
+        intro h; rw [h] at hNle; simp at hNle; omega
+      have := Inv.frame f fs co a cu rest [] Vf rp .dataNeeded hv (fun _ => ha) hcu hP hce hrem
+        (Or.inl ⟨rfl, rfl, hrne⟩)
+      simpa using this
+    · -- t bytes of payload arrive
+      subst ho
+      simp only
+      have htr : t ≤ rest.length := by omega
+      have htake : e.pending.take t = xorFrom f.mask (a + cu.length) (rest.take t) := by
+        rw [hpend, List.take_append_of_le_length (by rw [xorFrom_length]; exact htr), xorFrom_take]
+      have hdrop : e.pending.drop t = xorFrom f.mask (a + cu.length + t) (rest.drop t) ++ wireOf fs := by
+        rw [hpend, List.drop_append_of_le_length (by rw [xorFrom_length]; exact htr), xorFrom_drop]
+      rw [htake]
+      obtain ⟨d, hd, hde, out, V', h1, h2, h3, h4⟩ :=
+        decodeChunk_frame hb f fs co a cu rest Vf rp e' len t hv ha hcu hP hrem htr hlen (by omega)
+          (by omega) (by omega)
+      rw [hd, hde]
+      refine ⟨hff', hs', out, V', h1, h2, h3, ?_⟩
+      rw [hp', hdrop]; exact h4
+  · -- nothing left to read (empty payload / everything already in the buffer)
+    simp only [hN0, if_false]
+    have hr0 : rest = [] := by
+      have : N = 0 := by omega
+      rw [← hN] at this
+      have : rest.length = 0 := by
+        split at this <;> omega
+      exact List.length_eq_zero_iff.mp this
+    obtain ⟨d, hd, hde, out, V', h1, h2, h3, h4⟩ :=
+      decodeChunk_frame hb f fs co a cu rest Vf rp e len 0 hv ha hcu hP hrem (by omega) hlen (by omega)
+        (by omega) (by omega)
+    have hb0 : xorFrom f.mask (a + cu.length) (rest.take 0) = [] := by simp [xorFrom_nil]
+    rw [hb0] at hd
+    rw [hd, hde]
+    refine ⟨hff, hs, out, V', h1, h2, h3, ?_⟩
+    rw [hpend]; simpa using h4
+
+end VncModel.Ws
